@@ -24,21 +24,29 @@ LEVEL_TEXT = (
     "theorem ylm_norm_eq_code (over the reals the normalised recursion of the oracle returns the rows of the code-shaped "
     "recursion, every l_max); the array implementation that runs on the files is tied to the generic Lean recursions "
     "ylmNorm/ylmCode and to the library's own harmonics by differential runs. "
-    "Proof tier (partial, in addition): the 20 smallest tables (Lebedev degree <= 11, spherical designs <= 11, maximum-determinant <= 9) are "
+    "Proof tier (partial, in addition): the 28 smallest tables (Lebedev degree <= 17, spherical designs <= 13, maximum-determinant <= 12, "
+    "Ahrens-Beylkin 14) are "
     "regenerated from the .npz files on every run into Gen/AngularData/*.lean as exact dyadic rationals; in each generated file the kernel "
     "decides (decide +kernel, exact integer arithmetic) that every monomial x^a y^b z^c of total degree <= the advertised degree is "
-    "integrated to 1e-13 and that every node is on the unit sphere to 1e-13; Props/C02/Sound.lean turns this into statements about the "
+    "integrated to 1e-13 and that every node is on the unit sphere to 1e-13 (the 8 larger tables: one kernel statement per first exponent, "
+    "per-node moments by iterated multiplication; Props/C02/Slice.lean proves that the sliced evaluation computes the same integer moments, "
+    "sliceMoments_eq / allOkUnit_of_slices / allOk4pi_of_slices); Props/C02/Sound.lean turns this into statements about the "
     "rational quadrature sums (allOkUnit_sound, allOk4pi_sound with Mathlib's 20-digit enclosure of pi) and, by linearity, about every "
-    "polynomial of that degree (poly_bound). The closed form of the monomial means over the sphere is stated, not derived (checked "
-    "against numerical integration by the correspondence). For the other 430 files no theorem is claimed (kernel cost: 2.2 GB at degree 13)."
+    "polynomial of that degree (poly_bound); onSphere_sound / all_on_sphere: | |p|^2 - 1 | <= 1e-13 for every node of every carried table. "
+    "The closed form of the monomial means over the sphere is stated, not derived (checked "
+    "against numerical integration by the correspondence). For the other 422 files no theorem is claimed (kernel cost grows with "
+    "nodes x monomials: about 0.3 .. 0.6 ms and 10 kB per pair; spherical_15_120 and maxdet_13_196 need more than 60 s of CPU)."
 )
 TECHNIQUE = ("complete enumeration with a native Lean oracle (normalised spherical-harmonic recursion), cross-checked against "
              "the library's own harmonics and, for failing files, a 30-digit mpmath evaluation of the definition")
 GEN = ["angular_data"]
-LEAN_MODULES = ["GridVerif.Props.C08", "GridVerif.Props.C02.Exact"]
+LEAN_MODULES = ["GridVerif.Props.C08", "GridVerif.Props.C02.Exact", "GridVerif.Props.C02.OnSphere"]
 CARRIED = ["lebedev_3_6", "lebedev_5_18", "lebedev_7_26", "lebedev_9_38", "lebedev_11_50", "spherical_1_2", "spherical_3_6", "spherical_5_12",
            "spherical_7_32", "spherical_9_48", "spherical_11_70", "maxdet_1_4", "maxdet_2_9", "maxdet_3_16", "maxdet_4_25", "maxdet_5_36",
            "maxdet_6_49", "maxdet_7_64", "maxdet_8_81", "maxdet_9_100"]
+# round 3: kernel check stated slice by slice (translate/angular_data.py COST_MAX)
+CARRIED_SLICED = ["lebedev_13_74", "lebedev_15_86", "lebedev_17_110", "spherical_13_94", "maxdet_10_121", "maxdet_11_144", "maxdet_12_169",
+                  "ahrens_beylkin_14_72"]
 # no theorem about the data; these C08 theorems anchor the harmonics the oracle integrates (order, normalisation, sign)
 THEOREMS = [
     "GridVerif.C08.row_index_bij",
@@ -51,14 +59,25 @@ THEOREMS = [
     # degree <= advertised degree to 1e-13 (kernel-decided integer statements + soundness over Q / R + linearity)
     "GridVerif.C02.allOkUnit_sound", "GridVerif.C02.allOk4pi_sound", "GridVerif.C02.quadQ_eq", "GridVerif.C02.poly_bound",
     "GridVerif.C02.carried_eq", "GridVerif.C02.lebedev_11_50_poly",
-] + [f"GridVerif.C02.{n}_exact" for n in CARRIED]
+] + [f"GridVerif.C02.{n}_exact" for n in CARRIED] + [
+    # round 3: the sliced kernel evaluation computes the same integer moments (so the 8 larger tables are exact too), and the
+    # integer test onSphere means | |p|^2 - 1 | <= 1e-13 for every node of every carried table
+    "GridVerif.C02.sliceMoments_eq", "GridVerif.C02.sliceOkUnit_iff", "GridVerif.C02.sliceOk4pi_iff",
+    "GridVerif.C02.allOkUnit_of_slices", "GridVerif.C02.allOk4pi_of_slices", "GridVerif.C02.slices_of_allOkUnit",
+    "GridVerif.C02.lebedev_17_110_poly",
+    "GridVerif.C02.onSphere_sound", "GridVerif.C02.norm_window", "GridVerif.C02.all_on_sphere", "GridVerif.C02.carried_sizes",
+] + [f"GridVerif.C02.{n}_exact" for n in CARRIED_SLICED] + [f"GridVerif.C02.{n}_on_sphere" for n in CARRIED + CARRIED_SLICED]
 RULE = (
     "one evaluation = one data file loaded through AngularGrid(degree, method) and checked by the Lean oracle for all (l, m) "
     "with l <= advertised degree (quick tier: the files outside the full selection are screened on 9 orders m, all l; "
     "plus: moments of small files compared between the array oracle, the generic Lean "
     "recursions ylmNorm / ylmCode and the library's own harmonics, and on a synthetic point set at degree 200..325 with "
     "ylmNorm checked against the 300-digit mpmath definition on sampled rows; library-side integration of its own harmonics for "
-    "files of degree <= 40 quick / <= 75 thorough compared with the oracle's per-degree errors). "
+    "files of degree <= 40 quick / <= 75 thorough compared with the oracle's per-degree errors; "
+    "construction histories: one evaluation = one history of constructions by every route (spelling, degree / size, exact / rounded up, NumPy "
+    "integers, cache on / off), in-place edits and setter assignments on grids handed out earlier, uses of the public methods in any order, "
+    "every construction and every unedited grid compared with the .npz file; the same in fresh interpreters starting with cache=False; requests "
+    "at both ends of every table; the carried tables: all monomials in exact integer arithmetic at 1e-13). "
     "non-trivial = advertised degree >= 2"
 )
 TRUSTED_BASE = [
@@ -206,9 +225,11 @@ def _corr_carried(ctx: Ctx, ang):
     # (c) closed form vs numerical integration
     with mp.workdps(30):
         for a, b, c in [(0, 0, 0), (2, 0, 0), (0, 2, 2), (4, 2, 0), (2, 2, 2), (6, 0, 4), (1, 2, 0), (3, 3, 2), (8, 2, 0), (4, 4, 2)] + \
-                [tuple(ctx.rng.randrange(0, 7) for _ in range(3)) for _ in range(6)]:
-            num = mp.quad(lambda th: mp.quad(lambda ph: (mp.sin(th) * mp.cos(ph)) ** a * (mp.sin(th) * mp.sin(ph)) ** b * mp.cos(th) ** c * mp.sin(th),
-                                             [0, mp.pi, 2 * mp.pi]), [0, mp.pi / 2, mp.pi]) / (4 * mp.pi)
+                [tuple(ctx.rng.randrange(0, 10) for _ in range(3)) for _ in range(12)]:
+            # the integrand (sin th cos ph)^a (sin th sin ph)^b cos^c th sin th is a product of a function of th and one of ph
+            # (Fubini): two one-dimensional quadratures instead of a nested one (the nested form took 5 .. 15 s per monomial)
+            num = (mp.quad(lambda th: mp.sin(th) ** (a + b + 1) * mp.cos(th) ** c, [0, mp.pi / 2, mp.pi])
+                   * mp.quad(lambda ph: mp.cos(ph) ** a * mp.sin(ph) ** b, [0, mp.pi / 2, mp.pi, 3 * mp.pi / 2, 2 * mp.pi])) / (4 * mp.pi)
             ctx.count(["sphere-mean", a, b, c], nontrivial=True, tag="sphere-mean")
             if abs(num - mp.mpf(mean(a, b, c).numerator) / mean(a, b, c).denominator) > mp.mpf(10) ** -15:
                 ctx.fail("corr", "sphere-mean", f"closed form of the mean of x^{a} y^{b} z^{c} over the sphere is {mean(a, b, c)}, numerical integration gives {mp.nstr(num, 18)}")
@@ -227,6 +248,30 @@ def _corr_carried(ctx: Ctx, ang):
         if not same:
             ctx.fail("corr", f"carried:{meth}_{deg}_{size}", f"Gen/AngularData/{name}.lean does not denote the arrays the loader returns for {meth}_{deg}_{size}")
             continue
+        # (d) the integer tests of Model/SphereQuad.lean run natively (driver op C02.table) on the integers of the generated file:
+        #     the sliced moments are the exact integer moments, sliced and direct test accept the table, and both reject it after
+        #     one coordinate lost its sign (still on the sphere): the test can fail
+        def table_line(rs, a):
+            return f"C02.table {'unit' if kind == 'Unit' else '4pi'} {kp} {kw} {deg} {ad.TOL_INV} {a} {4 * len(rs)} " + " ".join(str(v) for r in rs for v in r)
+        slices = sorted({0, deg, ctx.rng.randrange(0, deg + 1), ctx.rng.randrange(0, deg + 1)})
+        i_big = max(range(len(rows)), key=lambda i: abs(rows[i][1]))
+        flipped = [r if i != i_big else (r[0], -r[1], r[2], r[3]) for i, r in enumerate(rows)]
+        answers = driver_batch([table_line(rows, a) for a in slices] + [table_line(flipped, 1 if deg >= 1 else 0)])
+        for a, ans in zip(slices, answers):
+            ctx.count(["carried-slice", meth, deg, size, a], nontrivial=True, tag="carried-slice")
+            want = [sum(r[0] * r[1] ** a * r[2] ** b * r[3] ** c for r in rows) for b in range(deg + 1 - a) for c in range(deg + 1 - a - b)]
+            got = None
+            if ans.startswith("ok "):
+                T = Tokens(ans[3:])
+                flags = (T.nat(), T.nat(), T.nat())
+                got = T.vec(int)
+            if got != want or flags != (1, 1, 1):
+                ctx.fail("corr", f"carried:{meth}_{deg}_{size}:slice", f"{meth}_{deg}_{size}, slice a = {a}: the native evaluation of sliceMoments / sliceOk / direct test / onSphere "
+                         f"answers {ans[:60]!r}; the exact integer moments {'agree' if got == want else 'differ'}", witness={"method": meth, "degree": deg, "slice": a})
+        ans = answers[-1]
+        if deg >= 1 and abs(2 * rows[i_big][0] * rows[i_big][1]) * ad.TOL_INV > 2 ** (kw + kp) * (1 if kind == "Unit" else 13) and not ans.startswith("ok 0 0 1 "):
+            ctx.fail("corr", f"carried:{meth}_{deg}_{size}:slice", f"{meth}_{deg}_{size} with the sign of x[{i_big}] flipped: the integer tests answer {ans[:40]!r}, expected rejection "
+                     f"(`ok 0 0 1 …`: sliced and direct test fail, nodes still on the sphere)", witness={"method": meth, "degree": deg, "node": i_big})
         g = ang.AngularGrid(degree=deg, method=meth, cache=False)
         for a, b, c in [(0, 0, 0)] + [tuple(t) for t in ([ctx.rng.randrange(0, deg + 1) for _ in range(3)] for _ in range(12)) if sum(t) <= deg][:5]:
             exact = sum(Fraction(r[0], 2 ** kw) * Fraction(r[1], 2 ** kp) ** a * Fraction(r[2], 2 ** kp) ** b * Fraction(r[3], 2 ** kp) ** c for r in rows)
@@ -450,9 +495,371 @@ def _oracle_call_paths(ctx: Ctx, ang):
         getattr(ang, c).clear()
 
 
+# --------------------------------------------------------------------------------------
+# round 3, part A: construction histories (classes 7, 9, 10, 11, 12 of AGENT_ROUND3.md)
+# --------------------------------------------------------------------------------------
+# The reference of every check below is the .npz file itself (np.load, broadcast of a single weight, 4 pi for the two
+# normalised families), never another AngularGrid.  A history is a list of Python source lines; the same lines are executed
+# here and form the replay snippet.
+HIST_HEADER = """import os, math, warnings; warnings.filterwarnings('ignore')
+import numpy as np
+import grid
+import grid.angular as A
+from grid.angular import AngularGrid
+DATA = {data}
+DIRS = {{'lebedev': 'lebedev', 'spherical': 'spherical_design', 'maxdet': 'maxdet', 'ahrens_beylkin': 'ahrens_beylkin'}}
+def shipped(m, d, s):
+    with np.load(os.path.join(DATA, DIRS[m], f'{{m}}_{{d}}_{{s}}.npz')) as z:
+        P, W = np.array(z['points'], dtype=float), np.array(z['weights'], dtype=float)
+    if W.size == 1:
+        W = np.full(len(P), float(W[0]))
+    if m in ('lebedev', 'spherical'):
+        W = W * (4 * math.pi)
+    return P, W
+def check(g, m, d, s, what):
+    P, W = shipped(m, d, s)
+    assert g.degree == d and g.size == s and g.method == m, f'{{what}}: degree/size/method {{g.degree}}/{{g.size}}/{{g.method}}, expected {{d}}/{{s}}/{{m}}'
+    assert g.points.shape == P.shape and g.weights.shape == W.shape and g.points.dtype == np.float64 and g.weights.dtype == np.float64, \\
+        f'{{what}}: shapes/dtypes {{g.points.shape}} {{g.points.dtype}} {{g.weights.shape}} {{g.weights.dtype}}'
+    assert np.array_equal(g.points, P), f'{{what}}: points are not those of {{m}}_{{d}}_{{s}}.npz (max |p| = {{np.abs(np.linalg.norm(g.points, axis=1)).max()!r}}, max difference {{np.abs(g.points - P).max()!r}})'
+    assert np.allclose(g.weights, W, rtol=1e-15, atol=0.0), f'{{what}}: weights are not those of {{m}}_{{d}}_{{s}}.npz (sum {{float(g.weights.sum())!r}}, 4 pi = {{4 * math.pi!r}}, max relative difference {{np.abs(g.weights / W - 1).max()!r}})'
+def rejects(**kw):
+    try:
+        AngularGrid(**kw)
+    except ValueError:
+        return
+    raise AssertionError(f'AngularGrid(**{{kw}}) did not raise ValueError')
+def clear_caches():
+    for k, v in vars(A).items():
+        if k.endswith('_CACHE') and isinstance(v, dict):
+            v.clear()
+"""
+HIST_DATA_SNIPPET = "os.path.join(os.path.dirname(grid.__file__), 'data')"
+
+DAMAGE = [          # in-place edits by the owner of a grid (class 9) - `{g}` is the variable
+    "{g}.points[...] *= 3.0; {g}.weights[...] *= 2.5",
+    "{g}.weights *= -1.0",
+    "{g}.points[:, 0] *= -1.0",
+    "{g}.weights.fill(0.0)",
+    "{g}.points[...] = 0.0",
+    "np.negative({g}.points, out={g}.points); np.sqrt(np.abs({g}.weights), out={g}.weights)",
+    "{g}.points[::2] += 1.0; {g}.weights[1::2] = np.nan",
+    "t = {g}.weights; t *= 0.5; {g}.weights = t",                              # same object assigned again through the setter
+    "t = {g}.points; t[...] = t[::-1].copy(); {g}.points = t",
+    "{g}.points = {g}.points * 2.0; {g}.weights = np.ones({g}.size)",        # setters with new arrays
+    "{g}.points.sort(axis=0)",
+    "l = {g}.get_localgrid(np.zeros(3), np.inf); l.weights[...] = 7.0; l.points[...] += 1.0",   # the whole-grid local grid shares the arrays
+]
+USE = [             # public methods / accessors of one object, any order (class 10); none of them may change the grid
+    "_ = ({g}.weights, {g}.points, {g}.size, {g}.degree, {g}.method)",
+    "_ = ({g}.method, {g}.degree, {g}.size, {g}.points, {g}.weights)",
+    "_ = {g}.integrate(np.ones({g}.size))",
+    "_ = {g}.integrate({g}.points[:, 2] ** 2, {g}.points[:, 0])",
+    "l = {g}.get_localgrid(np.array([0.0, 0.0, 1.0]), 0.7); l.weights[...] = 7.0; l.points[...] += 1.0",
+    "l = {g}.get_localgrid(np.array([0.3, -0.2, 0.1]), 5.0); l.weights[...] *= 0.0; l.points[...] *= -2.0",
+    "l = {g}.get_localgrid(np.array([0.0, 1.0, 0.0]), 0.0)",
+    "_ = {g}.moments(2, np.zeros((1, 3)), np.ones({g}.size), type_mom='cartesian')",
+    "_ = {g}.moments(1, np.array([[0.0, 0.0, 1.0], [1.0, 0.0, 0.0]]), {g}.points[:, 1] ** 2, type_mom='pure')",
+]
+BROKEN_FILES = {("ahrens_beylkin", 39), ("ahrens_beylkin", 127)}
+
+
+def _tables(ang):
+    return {m: {int(d): int(s) for d, s in getattr(ang, PREFIX[m] + "_DEGREES").items()} for m in METHODS}
+
+
+def _resolve(tab, degree=None, size=None):
+    """smallest shipped (degree, size) not below the request, by brute force over the table"""
+    if degree is not None:
+        d = min(k for k in tab if k >= degree)
+        return d, tab[d]
+    s = min(v for v in tab.values() if v >= size)
+    return next(k for k, v in tab.items() if v == s), s
+
+
+def _spellings(ctx, m):
+    return ctx.rng.choice([m, m, m.upper(), m.title(), m[0].upper() + m[1:], "".join(c.upper() if i % 2 else c for i, c in enumerate(m))])
+
+
+def _request(ctx, tab, d, s):
+    """a constructor request that must resolve to (d, s): exact / rounded up, by degree / by size, int kinds (classes 6, 7)"""
+    below_d = max([k for k in tab if k < d], default=-1)
+    below_s = max([v for v in tab.values() if v < s], default=-1)
+    kind = ctx.rng.choice(["degree", "degree", "size", "size", "degree-up", "size-up", "degree-just-above-previous", "size-just-above-previous",
+                           "np-degree", "np-size", "positional"])
+    if kind == "degree":
+        return f"degree={d}"
+    if kind == "size":
+        return f"size={s}"
+    if kind == "degree-up":
+        return f"degree={ctx.rng.randint(below_d + 1, d)}"
+    if kind == "size-up":
+        return f"size={ctx.rng.randint(below_s + 1, s)}"
+    if kind == "degree-just-above-previous":
+        return f"degree={below_d + 1}"
+    if kind == "size-just-above-previous":
+        return f"size={below_s + 1}"
+    if kind == "np-degree":
+        return f"degree=np.{ctx.rng.choice(['int64', 'int32', 'int16', 'uint16'])}({d})"
+    if kind == "np-size":
+        return f"size=np.{ctx.rng.choice(['int64', 'int32', 'uint32'])}({s})"
+    return f"{d}"
+
+
+def _run_history(ctx, lines, key, tag, case):
+    """exec the lines one by one (fresh namespace); a failing line is a failing input of the property"""
+    ns = {}
+    exec(HIST_HEADER.format(data=repr(str(SRC / "data"))), ns)
+    ctx.count(case, nontrivial=True, tag=tag)
+    for i, ln in enumerate(lines):
+        try:
+            exec(ln, ns)
+        except Exception as e:          # AssertionError of `check`, or a construction that raises
+            ctx.fail("oracle", key, f"construction history fails at step {i + 1} `{ln[:160]}`: {type(e).__name__}: {str(e)[:400]}",
+                     witness={"history": lines[:i + 1]},
+                     snippet=HIST_HEADER.format(data=HIST_DATA_SNIPPET) + "\n".join(lines[:i + 1]) + "\n")
+            return False
+    return True
+
+
+def _make_history(ctx, tabs, nsteps, pool):
+    """A random history over a pool of (method, degree): constructions by every route, in-place edits of grids handed out
+    earlier, uses of their public methods in any order; after every step every grid that its owner has not edited must still be
+    the shipped quadrature, and every new construction must be the shipped quadrature."""
+    lines = []
+    if ctx.rng.random() < 0.5:
+        lines.append("clear_caches()")
+    live = []                      # (var, m, d, s, intact)
+    k = 0
+    for step in range(nsteps):
+        r = ctx.rng.random()
+        just = None
+        if r < 0.5 or not live:
+            m, d = ctx.rng.choice(pool["same"] if ctx.rng.random() < 0.8 else pool["other"])   # mostly one degree, under every method that has it
+            s = tabs[m][d]
+            req = _request(ctx, tabs[m], d, s)
+            cache = ctx.rng.choice(["", "", ", cache=True", ", cache=False"])
+            var = f"g{k}"
+            k += 1
+            lines.append(f"{var} = AngularGrid({req}, method={_spellings(ctx, m)!r}{cache})")
+            lines.append(f"check({var}, {m!r}, {d}, {s}, 'step {step + 1}: {var} as constructed')")
+            live.append([var, m, d, s, True])
+            just = var
+        elif r < 0.75:
+            g = live[-1] if ctx.rng.random() < 0.5 else ctx.rng.choice(live)    # mostly the grid handed out last
+            lines.append(ctx.rng.choice(DAMAGE).format(g=g[0]))
+            g[4] = False
+        else:
+            g = ctx.rng.choice(live)
+            lines.append(ctx.rng.choice(USE).format(g=g[0]))
+        for var, m, d, s, intact in live:
+            if intact and var != just:
+                lines.append(f"check({var}, {m!r}, {d}, {s}, 'after step {step + 1}: {var}, which nobody edited')")
+    return lines
+
+
+def _oracle_histories(ctx: Ctx, ang):
+    tabs = _tables(ang)
+    small = [(m, d) for m in METHODS for d, s in tabs[m].items() if s <= 400 and (m, d) not in BROKEN_FILES]
+    # degrees that exist under two methods (a cache keyed too coarsely shows there) are preferred
+    shared = [(m, d) for m, d in small if sum(1 for mm in METHODS if d in tabs[mm]) >= 2]
+    for h in range(ctx.n(16, 60)):
+        mb = METHODS[h % 4]                                  # every method is the base of a quarter of the histories
+        base = ctx.rng.choice([x for x in shared if x[0] == mb])
+        same = [base] + [(mm, base[1]) for mm in METHODS if mm != mb and base[1] in tabs[mm] and (mm, base[1]) not in BROKEN_FILES and tabs[mm][base[1]] <= 400]
+        pool = {"same": same, "other": ctx.rng.sample(small, 2)}
+        lines = _make_history(ctx, tabs, ctx.rng.randint(5, 12), pool)
+        if not _run_history(ctx, lines, "angular.AngularGrid:history", "history", ["history", lines]):
+            break
+    # the same degree under two methods, every ordered pair of methods (a cache or a memo keyed by the degree alone), with an
+    # in-place edit of the second grid in between
+    for m1 in METHODS:
+        for m2 in METHODS:
+            both = [d for d in tabs[m1] if m1 != m2 and d in tabs[m2] and tabs[m1][d] <= 400 and tabs[m2][d] <= 400
+                    and (m1, d) not in BROKEN_FILES and (m2, d) not in BROKEN_FILES]
+            if not both:
+                continue
+            d = ctx.rng.choice(both)
+            s1, s2 = tabs[m1][d], tabs[m2][d]
+            c2 = ctx.rng.choice(["", ", cache=False"])
+            lines = ["clear_caches()",
+                     f"a = AngularGrid(degree={d}, method={m1!r})", f"check(a, {m1!r}, {d}, {s1}, 'first grid')",
+                     f"b = AngularGrid(degree={d}, method={m2!r}{c2})", f"check(b, {m2!r}, {d}, {s2}, 'same degree under the other method')",
+                     ctx.rng.choice(DAMAGE).format(g="b"),
+                     f"c = AngularGrid(size={s1}, method={m1!r})", f"check(c, {m1!r}, {d}, {s1}, 'first method again, by size')",
+                     f"e = AngularGrid(size={s2}, method={m2!r})", f"check(e, {m2!r}, {d}, {s2}, 'second method again, by size')",
+                     f"check(a, {m1!r}, {d}, {s1}, 'the first grid, which nobody edited')"]
+            if not _run_history(ctx, lines, "angular.AngularGrid:history:two-methods", "history:two-methods", ["two-methods", lines]):
+                break
+    # class 7 / 12: requests at the ends of every table (smallest and largest shipped grid, one below / at the maximum), the
+    # two-point design, degree 0 and 1, size 0 and 1; rejected requests (above the maximum) must raise, not return something else
+    for m in METHODS:
+        tab = tabs[m]
+        dmax, smax = max(tab), max(tab.values())
+        dmin = min(tab)
+        reqs = [("degree=0", 0, None), ("degree=1", 1, None), (f"degree={dmin}", dmin, None), ("size=0", None, 0), ("size=1", None, 1),
+                (f"size={tab[dmin]}", None, tab[dmin]), (f"size={tab[dmin] + 1}", None, tab[dmin] + 1),
+                (f"degree={dmax}", dmax, None), (f"degree={dmax - 1}", dmax - 1, None), (f"size={smax}", None, smax), (f"size={smax - 1}", None, smax - 1)]
+        ctx.rng.shuffle(reqs)
+        lines = ["clear_caches()"] if ctx.rng.random() < 0.5 else []
+        for i, (req, dq, sq) in enumerate(reqs):
+            d, s = _resolve(tab, degree=dq, size=sq)
+            if (m, d) in BROKEN_FILES:
+                continue
+            cache = ctx.rng.choice(["", ", cache=False"])
+            lines.append(f"e{i} = AngularGrid({req}, method={m!r}{cache})")
+            label = f"AngularGrid({req}, method={m!r}{cache})"
+            lines.append(f"check(e{i}, {m!r}, {d}, {s}, {label!r})")
+        for bad in (f"degree={dmax + 1}", f"size={smax + 1}", "degree=-1", "size=-1"):
+            lines.append(f"rejects({bad}, method={m!r})")
+        _run_history(ctx, lines, f"angular.AngularGrid:{m}:table-ends", "table-ends:" + m, ["table-ends", m, lines])
+    for c in ("LEBEDEV_CACHE", "SPHERICAL_CACHE", "MAX_DET_CACHE", "AHRENS_BEYLKIN_CACHE"):
+        getattr(ang, c, {}).clear()
+
+
+def _oracle_fresh_process(ctx: Ctx, ang):
+    """class 11: the first construction of a fresh interpreter with a non-default option (cache=False, size=, mixed-case
+    method name, a request that is rounded up), followed by a short history - each scenario in a process of its own."""
+    import subprocess
+    import sys
+    tabs = _tables(ang)
+    small = [(m, d) for m in METHODS for d, s in tabs[m].items() if s <= 400 and (m, d) not in BROKEN_FILES]
+    jobs = []
+    for j in range(ctx.n(4, 16)):
+        m, d = ctx.rng.choice(small)
+        s = tabs[m][d]
+        first = ctx.rng.choice([f"size={s}", f"size={max(1, s - 1)}" if _resolve(tabs[m], size=max(1, s - 1)) == (d, s) else f"size={s}",
+                                f"degree={d}", f"degree={d}"])
+        spell = ctx.rng.choice([m, m.upper(), m.title()])
+        c0 = ctx.rng.choice(["False", "False", "False", "True"])
+        lines = [f"f0 = AngularGrid({first}, method={spell!r}, cache={c0})", f"check(f0, {m!r}, {d}, {s}, 'first construction of the process')"]
+        lines += _make_history(ctx, tabs, ctx.rng.randint(2, 5), {"same": [(m, d)] + [(mm, d) for mm in METHODS if mm != m and (mm, d) in small],
+                                                                   "other": ctx.rng.sample(small, 1)})
+        lines = [ln for ln in lines if ln != "clear_caches()"]
+        jobs.append((m, lines))
+
+    def run1(lines):
+        script = HIST_HEADER.format(data=repr(str(SRC / "data"))) + "\n".join(lines) + "\n"
+        env = dict(os.environ, PYTHONPATH=str(SRC.parent), OMP_NUM_THREADS="1")
+        p = subprocess.run([sys.executable, "-c", script], capture_output=True, text=True, cwd="/", env=env, timeout=600)
+        return p.returncode, p.stderr.strip().splitlines()[-1] if p.stderr.strip() else ""
+
+    def run(job):
+        return run1(job[1])
+    with cf.ThreadPoolExecutor(max_workers=4) as ex:
+        for (m, lines), (rc, err) in zip(jobs, ex.map(run, jobs)):
+            ctx.count(["fresh-process", lines], nontrivial=True, tag="fresh-process")
+            if rc != 0:
+                # shortest failing prefix (each prefix in a fresh interpreter again)
+                for k in range(1, len(lines)):
+                    if lines[k - 1].startswith("check(") or k == len(lines) - 1:
+                        rc_k, err_k = run1(lines[:k])
+                        if rc_k != 0:
+                            lines, err = lines[:k], err_k
+                            break
+                ctx.fail("oracle", "angular.AngularGrid:fresh-process", f"in a fresh interpreter the history `{'; '.join(lines)[:300]}` fails: {err[:400]}",
+                         witness={"history": lines}, snippet=HIST_HEADER.format(data=HIST_DATA_SNIPPET) + "\n".join(lines) + "\n")
+
+
+CARRIED_SNIPPET = """from fractions import Fraction
+import numpy as np
+from grid.angular import AngularGrid
+P, W = AngularGrid._load_precomputed_angular_grid({deg}, {size}, {meth!r})     # what the constructor is handed
+W = np.ones(len(P)) * W
+a, b, c = {mono}
+q = sum(Fraction(float(w)) * Fraction(float(p[0])) ** a * Fraction(float(p[1])) ** b * Fraction(float(p[2])) ** c for p, w in zip(P, W))
+def df(n): return 1 if n <= 1 else n * df(n - 2)
+mean = Fraction(df(a - 1) * df(b - 1) * df(c - 1), df(a + b + c + 1)) if a % 2 == b % 2 == c % 2 == 0 else Fraction(0)
+norm = {norm}                                                                  # the family is normalised to 1 resp. 4 pi
+assert len(P) == {size} and abs(q - norm * mean) <= Fraction(1, 10 ** 13), f'{meth}_{deg}_{size}: sum_i w_i x^{{a}} y^{{b}} z^{{c}} = {{float(q)!r}}, {{float(norm)!r}} x mean over the sphere = {{float(norm * mean)!r}} (exact rational arithmetic on the doubles of the file)'
+"""
+FOUR_PI_Q = (4 * 314159265358979323846, 10 ** 20)        # the enclosure the Lean statement uses (Model/SphereQuad.lean: fourPiNum / fourPiDen)
+
+
+def _oracle_carried_exact(ctx: Ctx, ang):
+    """The tables of the proof tier, at the tolerance of the theorems (1e-13) and with their arithmetic (exact rationals, here
+    Python integers; the same inequalities as okUnit / ok4pi / onSphere of Model/SphereQuad.lean): every monomial of degree <=
+    advertised degree and every node on the sphere.  When a changed data file breaks a kernel statement this gives the
+    concrete monomial."""
+    from ..translate import angular_data as ad
+
+    def dfact(n):
+        return 1 if n <= 1 else n * dfact(n - 2)
+    T = 10 ** 13
+    for meth, d, kind, deg, size in ad.selected():
+        key = f"angular:{meth}_{deg}_{size}"
+        try:
+            P, W = ang.AngularGrid._load_precomputed_angular_grid(deg, size, meth)
+            kp, Pi = ad._scaled(P)
+            kw, Wi = ad._scaled(np.ones(len(P)) * W)
+        except Exception as e:
+            ctx.fail("oracle", key, f"{meth}_{deg}_{size}: the loader raises {type(e).__name__}: {e}")
+            continue
+        n = len(Wi)
+        X, Y, Z = Pi[0::3], Pi[1::3], Pi[2::3]
+        ctx.count(["carried-exact", meth, deg, size], nontrivial=True, tag="carried-exact:" + meth)
+        one = 1 << (2 * kp)
+        off = max((abs(x * x + y * y + z * z - one) for x, y, z in zip(X, Y, Z)), default=0)
+        if n != size or len(X) != n or off * T > one:
+            ctx.fail("oracle", key, f"{meth}_{deg}_{size}: {n} nodes (advertised {size}), max | |p|^2 - 1 | = {off / one:.3e} > 1e-13 (exact arithmetic)",
+                     witness={"method": meth, "degree": deg, "size": size, "nodes": n, "off_sphere": off / one})
+            continue
+        fn, fd = (1, 1) if kind == "Unit" else FOUR_PI_Q
+        worst = (-1.0, None)
+        xa = list(Wi)
+        for a in range(deg + 1):
+            ya = list(xa)
+            for b in range(deg + 1 - a):
+                za = list(ya)
+                for c in range(deg + 1 - a - b):
+                    mom = sum(za)                                     # 2^(kw + kp (a+b+c)) sum_i w_i x^a y^b z^c
+                    even = a % 2 == 0 and b % 2 == 0 and c % 2 == 0
+                    num, den = (dfact(a - 1) * dfact(b - 1) * dfact(c - 1) if even else 0), dfact(a + b + c + 1)
+                    sc = 1 << (kw + kp * (a + b + c))
+                    lhs, rhs = abs(mom * den * fd - num * fn * sc) * T, den * fd * sc
+                    if lhs > rhs:
+                        err = lhs / rhs / T
+                        if err > worst[0]:
+                            worst = (err, (a, b, c))
+                    za = [t * z for t, z in zip(za, Z)]
+                ya = [t * y for t, y in zip(ya, Y)]
+            xa = [t * x for t, x in zip(xa, X)]
+        if worst[1] is not None:
+            mono = worst[1]
+            ctx.fail("oracle", key,
+                     f"{meth}_{deg}_{size}: not exact to its advertised degree {deg} in exact arithmetic: | sum_i w_i x^{mono[0]} y^{mono[1]} z^{mono[2]} - "
+                     f"{'4 pi x ' if kind != 'Unit' else ''}mean over the sphere | = {worst[0]:.3e} > 1e-13 (worst monomial of degree <= {deg})",
+                     witness={"method": meth, "degree": deg, "size": size, "monomial": list(mono), "error": worst[0]},
+                     snippet=CARRIED_SNIPPET.format(meth=meth, deg=deg, size=size, mono=tuple(mono),
+                                                    norm="Fraction(1)" if kind == "Unit" else f"Fraction({FOUR_PI_Q[0]}, {FOUR_PI_Q[1]})"))
+
+
+def oracle_at(ctx: Ctx, failure):
+    """A correspondence disagreement that names a file: the property itself is evaluated on that file (complete check by the
+    native oracle, the exact check when the file is carried, and the construction routes)."""
+    ang = importlib.import_module("grid.angular")
+    w = failure.witness if isinstance(failure.witness, dict) else {}
+    m, d = w.get("method"), w.get("degree")
+    if m is None or d is None:
+        import re
+        mt = re.search(r"(lebedev|spherical|maxdet|ahrens_beylkin)_(\d+)_(\d+)", failure.key + " " + failure.what)
+        if not mt:
+            return
+        m, d = mt.group(1), int(mt.group(2))
+    tab = _tables(ang).get(m, {})
+    if d not in tab:
+        return
+    job = (m, int(d), tab[int(d)])
+    _judge_file(ctx, ang, job, run_files([job])[0])
+    _oracle_carried_exact(ctx, ang)
+
+
 def oracle(ctx: Ctx, budget: str):
     ang = importlib.import_module("grid.angular")
     _oracle_call_paths(ctx, ang)
+    _oracle_histories(ctx, ang)
+    _oracle_fresh_process(ctx, ang)
+    _oracle_carried_exact(ctx, ang)
     files = all_files(ang)
     everything = ctx.thorough or budget == "large"
     sel = select(ctx, files, everything)
@@ -478,45 +885,9 @@ def oracle(ctx: Ctx, budget: str):
     worst_pass = 0.0
     for job, rep in list(zip(sel, reps)) + list(zip(screen, sreps)):
         m, d, s = job[:3]
-        name = f"{m}_{d}_{s}"
-        key = f"angular:{name}"
         ctx.count(["file", m, d, s] + ([job[3]] if len(job) > 3 else []), nontrivial=d >= 2,
                   tag=(f"file:{m}" if len(job) == 3 else f"screen:{m}"))
-        if "err" not in rep:
-            ctx.fail("corr", "file:answer", f"{name}: driver answered {rep['answer']}")
-            continue
-        # loader / table / normalisation in the loop
-        if rep["grid_degree"] != d or rep["grid_size"] != s or rep["n"] != s or not rep["shape_ok"]:
-            ctx.fail("oracle", key, f"{name}: AngularGrid(degree={d}, method={m}) has degree {rep['grid_degree']}, size {rep['grid_size']} "
-                     f"({rep['n']} points reached the oracle); advertised size {s}", witness=_wit(rep))
-            continue
-        if not max(rep["dev"], rep["impl_dev"]) <= SPHERE_TOL:
-            ctx.fail("oracle", key, f"{name}: points are off the unit sphere by {max(rep['dev'], rep['impl_dev']):.3e}", witness=_wit(rep))
-            continue
-        err = rep["err"]
-        bad = np.nonzero(~(err <= THRESH))[0]
-        if len(bad) == 0:
-            worst_pass = max(worst_pass, float(np.max(err)))
-            if not abs(rep["sumw"] - FOUR_PI) <= 1e-9:      # implied by l = 0, kept as a separate visible clause
-                ctx.fail("oracle", key, f"{name}: weights sum to {rep['sumw']!r}, not 4 pi", witness=_wit(rep))
-            continue
-        first, worst = int(bad[0]), int(np.nanargmax(np.where(np.isnan(err), np.inf, err)))
-        g = load(ang, m, d)
-        scr = "" if rep["orders"] is None else f" [screen on the orders |m| in {[0] + rep['orders']}]"
-        conf = confirm_mp(g, worst, rep["arg"][worst])
-        conf_first = confirm_mp(g, first, rep["arg"][first]) if first != worst else conf
-        what = (f"{name}: not exact to its advertised degree {d}: max_m |sum_i w_i Y_lm(p_i) - sqrt(4 pi) delta_l0| = "
-                f"{err[worst]:.3e} at l = {worst} (first degree above {THRESH:g}: l = {first}, {err[first]:.3e}; {len(bad)} degrees fail; "
-                f"sum of weights - 4 pi = {rep['sumw'] - FOUR_PI:.3e}); mpmath (30+ digits, definition): "
-                f"{conf:.3e} at (l, m) = ({worst}, {rep['arg'][worst]})" + scr)
-        if not abs(conf - err[worst]) <= 1e-9 + 1e-6 * conf:
-            # the oracle and the independent evaluation disagree: that is a broken tie, not a finding
-            ctx.fail("corr", f"oracle-vs-mpmath:{name}", f"{name}: Lean oracle reports {err[worst]:.3e} at l={worst}, mpmath {conf:.3e}")
-            continue
-        w = _wit(rep)
-        w.update(first_bad_l=first, worst_l=worst, worst_m=rep["arg"][worst], worst_err=float(err[worst]), mpmath_worst=conf, mpmath_first=conf_first,
-                 failing_degrees=[int(b) for b in bad[:40]])
-        ctx.fail("oracle", key, what, witness=w, snippet=SNIPPET.format(method=m, degree=d, size=s, l=worst))
+        worst_pass = max(worst_pass, _judge_file(ctx, ang, job, rep))
     ctx.extra["max_integration_error_of_passing_files"] = worst_pass
     ctx.extra["threshold"] = THRESH
     # data files no table entry points to
@@ -528,6 +899,48 @@ def oracle(ctx: Ctx, budget: str):
                 extra.append(p.name)
     if extra:
         ctx.info(f"data files not reachable through AngularGrid (not part of the property): {', '.join(extra)}")
+
+
+def _judge_file(ctx: Ctx, ang, job, rep):
+    """The property on one file, from the report of the native oracle; -> largest integration error if the file passes."""
+    m, d, s = job[:3]
+    name = f"{m}_{d}_{s}"
+    key = f"angular:{name}"
+    if "err" not in rep:
+        ctx.fail("corr", "file:answer", f"{name}: driver answered {rep['answer']}")
+        return 0.0
+    # loader / table / normalisation in the loop
+    if rep["grid_degree"] != d or rep["grid_size"] != s or rep["n"] != s or not rep["shape_ok"]:
+        ctx.fail("oracle", key, f"{name}: AngularGrid(degree={d}, method={m}) has degree {rep['grid_degree']}, size {rep['grid_size']} "
+                 f"({rep['n']} points reached the oracle); advertised size {s}", witness=_wit(rep))
+        return 0.0
+    if not max(rep["dev"], rep["impl_dev"]) <= SPHERE_TOL:
+        ctx.fail("oracle", key, f"{name}: points are off the unit sphere by {max(rep['dev'], rep['impl_dev']):.3e}", witness=_wit(rep))
+        return 0.0
+    err = rep["err"]
+    bad = np.nonzero(~(err <= THRESH))[0]
+    if len(bad) == 0:
+        if not abs(rep["sumw"] - FOUR_PI) <= 1e-9:      # implied by l = 0, kept as a separate visible clause
+            ctx.fail("oracle", key, f"{name}: weights sum to {rep['sumw']!r}, not 4 pi", witness=_wit(rep))
+        return float(np.max(err))
+    first, worst = int(bad[0]), int(np.nanargmax(np.where(np.isnan(err), np.inf, err)))
+    g = load(ang, m, d)
+    scr = "" if rep["orders"] is None else f" [screen on the orders |m| in {[0] + rep['orders']}]"
+    conf = confirm_mp(g, worst, rep["arg"][worst])
+    conf_first = confirm_mp(g, first, rep["arg"][first]) if first != worst else conf
+    what = (f"{name}: not exact to its advertised degree {d}: max_m |sum_i w_i Y_lm(p_i) - sqrt(4 pi) delta_l0| = "
+            f"{err[worst]:.3e} at l = {worst} (first degree above {THRESH:g}: l = {first}, {err[first]:.3e}; {len(bad)} degrees fail; "
+            f"sum of weights - 4 pi = {rep['sumw'] - FOUR_PI:.3e}); mpmath (30+ digits, definition): "
+            f"{conf:.3e} at (l, m) = ({worst}, {rep['arg'][worst]})" + scr)
+    if not abs(conf - err[worst]) <= 1e-9 + 1e-6 * conf:
+        # the oracle and the independent evaluation disagree: that is a broken tie, not a finding
+        ctx.fail("corr", f"oracle-vs-mpmath:{name}", f"{name}: Lean oracle reports {err[worst]:.3e} at l={worst}, mpmath {conf:.3e}")
+        return 0.0
+    w = _wit(rep)
+    w.update(first_bad_l=first, worst_l=worst, worst_m=rep["arg"][worst], worst_err=float(err[worst]), mpmath_worst=conf, mpmath_first=conf_first,
+             failing_degrees=[int(b) for b in bad[:40]])
+    ctx.fail("oracle", key, what, witness=w, snippet=SNIPPET.format(method=m, degree=d, size=s, l=worst))
+    return 0.0
 
 
 def _wit(rep):
